@@ -149,7 +149,21 @@ func (p *Program) ApplyFrozenNames(path string) (renamed int, err error) {
 		if len(fr.Locals) == len(now.Locals) {
 			m := map[string]string{}
 			consistent := true
+			// a RENAME introduces a name the frozen function did not have and drops one it had; moving a
+			// declaration up or down only permutes the list and needs (and gets) no alias
+			frozenSet, nowSet := map[string]bool{}, map[string]bool{}
 			for i := range now.Locals {
+				frozenSet[fr.Locals[i]] = true
+				nowSet[now.Locals[i]] = true
+			}
+			for i := range now.Locals {
+				if now.Locals[i] == fr.Locals[i] {
+					continue
+				}
+				if frozenSet[now.Locals[i]] || nowSet[fr.Locals[i]] {
+					consistent = false // reordered declarations (or a swap): positions do not identify variables
+					break
+				}
 				if prev, seen := m[now.Locals[i]]; seen && prev != fr.Locals[i] {
 					consistent = false // one current name would map to two frozen names
 				}
